@@ -197,7 +197,10 @@ def _triples_case(draw, tier):
     perm = draw(st.permutations(list(range(60))))
     return {"engine": NAME, "kind": "triples", "k": k, "shape": shape, "mask": mask,
             "extra": extra, "perm": list(perm)[:20],
-            "orders": [draw(ORDER) for _ in range(4)]}
+            "orders": [draw(ORDER) for _ in range(4)],
+            # the triples come as a list: the same triple may be listed more than once
+            # (decompositions of overlapping trees concatenated)
+            "repeat": draw(st.sampled_from([0, 0, 0, 1, 3]))}
 
 
 @st.composite
@@ -406,6 +409,9 @@ def _exec_triples(run, case):
         if len({a, b, c}) == 3:
             subset.append(_mk_triple(names[a], names[b], names[c]))
             run.probe("foreign_triple")
+    if case.get("repeat") and subset:
+        subset = subset + subset[: case["repeat"]]
+        run.probe("repeated_triple")
     # drawn presentation order of the triple list
     keyed = sorted(range(len(subset)), key=lambda i: case["perm"][i % len(case["perm"])] * 100 + i)
     subset = [subset[i] for i in keyed]
@@ -580,5 +586,5 @@ def describe(pid):
         "assumptions": ["leaf names are distinct", "seeded sampling, not exhaustive enumeration"],
         "probes_expected": ["order_permuted", "binary_enumerated", "foreign_triple",
                             "inconsistent_triples", "several_trees", "several_input_trees",
-                            "lazy_iterable_argument"],
+                            "lazy_iterable_argument", "repeated_triple"],
     }
